@@ -45,16 +45,31 @@ func main() {
 	runPure()
 	r := run.Rand
 	for i := 0; i < run.Scale(4000, 120000); i++ {
-		historyCase(r.U64())
+		sd := r.U64()
+		if !streamDead("history") {
+			historyCase(sd)
+		}
 	}
 	for i := 0; i < run.Scale(4000, 100000); i++ {
-		onceCase(r.U64())
+		sd := r.U64()
+		if !streamDead("once") {
+			onceCase(sd)
+		}
 	}
 	for i := 0; i < run.Scale(2500, 60000); i++ {
-		setCase(r.U64())
+		sd := r.U64()
+		if !streamDead("set") {
+			setCase(sd)
+		}
 	}
 	for i := 0; i < run.Scale(1200, 40000); i++ {
-		mixCase(r.U64())
+		sd := r.U64()
+		if !streamDead("do") {
+			mixCase(sd)
+		}
+	}
+	if len(wedged) > 0 {
+		return // the oracle failures are the verdict; the floors of abandoned streams are moot
 	}
 	checkCoverage()
 }
